@@ -10,7 +10,7 @@ import replay as R
 
 DEFAULT = ["op.add.ii", "op.div.ii", "op.mod.ii", "op.pus.ii", "op.pop.ii", "op.bior.bb", "op.band.bb", "op.lt.ii", "op.mul.dd.nv", "op.div.id.nv",
            "fn.substr.sii", "fn.chr.i", "fn.int.d", "fn.upper.s", "fn.rtrim.s", "fn.strpos.ss", "fn.hash.si", "fn.neg.i", "fn.m_at.si",
-           "c06.for.step", "c06.for.first.auto", "c12.literal.PE", "c12.literal.EE", "c19.getcmd.ONA.o2", "store.s_to_s", "c09.tupleid.1_2"]
+           "c06.for.step", "c06.for.first.auto", "c12.literal.PE", "c12.literal.EE", "store.s_to_s", "c09.tupleid.1_2"]
 
 LONGS = [0, 1, 2, 3, 5, 63, 64, 65, 255, 256, 2**31 - 1, 2**31, 2**32, 2**32 + 1, 2**62, 2**63 - 1, 2**63, 2**63 + 1, 2**64 - 1, 2**64 - 2, 2**64 - 64, 2**64 - 255, 2**64 - 256]
 DBLS = [0.0, -0.0, 1.0, -1.0, 0.5, 2.5, 1e300, -1e300, 4.9e-324, 9.223372036854775807e18, -9.223372036854775808e18, float("inf"), float("-inf"), float("nan"), 255.0, 256.0, 1e-310]
